@@ -409,3 +409,35 @@ theorem print_load_loses_empty_group_by :
   decide
 
 end AM.Config
+
+namespace AM.Config
+
+/-- F13 repaired: every expression a loaded configuration can hold (compiled, from a text that compiles) prints to a
+    scalar that loads back to itself — the empty expression included. -/
+theorem regexp_print_load (compiles : String → Bool) (s : String) (h : compiles s = true) :
+    Rx.load compiles (Rx.print ⟨true, s⟩) = some ⟨true, s⟩ := by
+  simp [Rx.print, Rx.load, h]
+
+/-- whatever `load` accepts is such an expression: the hypothesis of `regexp_print_load` is met by every loaded value -/
+theorem regexp_load_compiled (compiles : String → Bool) (y : Scalar) (r : Rx) (h : Rx.load compiles y = some r) :
+    r.compiled = true ∧ compiles r.original = true := by
+  cases y with
+  | null => simp [Rx.load] at h
+  | str s =>
+    simp only [Rx.load] at h
+    split at h
+    · cases h; simp_all
+    · cases h
+
+/-- the pinned printer: the empty expression loads (`match_re: {a: ''}`), and its printed form is refused. -/
+theorem regexp_print_load_old_fails (compiles : String → Bool) (h : compiles "" = true) :
+    Rx.load compiles (.str "") = some ⟨true, ""⟩ ∧ Rx.load compiles (Rx.printOld ⟨true, ""⟩) = none := by
+  simp [Rx.printOld, Rx.load, h]
+
+/-- the two printers agree on every non-empty expression: the repair changes nothing else -/
+theorem regexp_print_old_agrees (r : Rx) (h : r.original ≠ "") : Rx.print r = Rx.printOld r := by
+  simp [Rx.print, Rx.printOld, h]
+
+example : Rx.load (fun _ => true) (Rx.print ⟨true, ""⟩) = some ⟨true, ""⟩ := by decide
+
+end AM.Config
